@@ -60,4 +60,111 @@ at hand — the *kind of row object* is an input of the encoder. -/
 def setAttr (hasDict : Bool) (cont : Except EncErr Bytes) : Except EncErr Bytes :=
   if hasDict then cont else .error .attribute
 
+/-! ### Round 5: the whole of `Row.as_bytes` (the `packb` call included), `Row.nbytes`, `Row.__new__`
+
+The primitives the statement-level translations `Gen.RowFns.as_bytes`, `Gen.RowFns.nbytes` and
+`Gen.RowFns.row_new` are made of. -/
+
+/-- `tuple(self)` of a row object: its items as one array. -/
+def tupleOf (self : List PyVal) : PyVal := .list self
+
+/-- `packb(v, option=…, default=…)` where `packb` is the name orso/row.py imports (`ser` = `module.name` of that
+import, extracted).  The model knows one serialiser, ormsgpack's `packb` (`MsgPack.packb`: smallest encodings, 255
+containers, `TypeError` = `none` for integers outside `[-2^63, 2^64)`); on values of the wire universe neither the
+`option` flags nor the `default=` callback is consulted (they concern numpy / foreign objects: the `glue` cases).
+Any other serialiser is unknown to the model: it packs nothing, so every theorem about emitted records of rows
+stops checking. -/
+def callPackb (ser : String) (v : PyVal) (_options : List String) (_hasDefault : Bool) : Option Bytes :=
+  if ser = "ormsgpack.packb" then MsgPack.packb v else none
+
+/-- What a call of `Row.nbytes` ends in (an `int`, `None`, or the exception of `as_bytes` / of the attribute store)
+and the value of `self._cached_byte_size` afterwards: the *state of the row object*. -/
+abbrev SizeOut := Except EncErr (Option Nat) × Option Nat
+
+/-- `len(self.as_bytes)`: the property is evaluated (its exception ends the call), then measured. -/
+def lenOf (asBytes : Except EncErr Bytes) : Except EncErr (Option Nat) := asBytes.map (fun b => some b.length)
+
+/-- evaluate an expression that may raise, then go on with its value; an exception leaves the object as it was -/
+def bindSize (e : Except EncErr (Option Nat)) (cached : Option Nat) (k : Option Nat → SizeOut) : SizeOut :=
+  match e with
+  | .error x => (.error x, cached)
+  | .ok v => k v
+
+/-- `self._cached_byte_size = v`: possible only on an object with a `__dict__` (see `setAttr`). -/
+def storeCached (hasDict : Bool) (cached : Option Nat) (v : Option Nat) (k : Option Nat → SizeOut) : SizeOut :=
+  if hasDict then k v else (.error .attribute, cached)
+
+/-- Python truthiness of `None` / an `int`: `None` and `0` are false. -/
+def truthy : Option Nat → Bool
+  | none => false
+  | some 0 => false
+  | _ => true
+
+/-- `self._cached_byte_size or n`: the cached size when it is truthy, else `n`. -/
+def orSize (cached : Option Nat) (n : Nat) : Nat :=
+  if truthy cached then cached.getD n else n
+
+/-- `a + b` on values that may be `None` (`TypeError`, rendered as the codec's error kind: never reached on the tree). -/
+def addSize (a b : Except EncErr (Option Nat)) : Except EncErr (Option Nat) :=
+  match a, b with
+  | .error x, _ => .error x
+  | _, .error x => .error x
+  | .ok (some x), .ok (some y) => .ok (some (x + y))
+  | _, _ => .error .codec
+
+/-- orso/row.py:144-147 as it is: size the row once, keep the size on the object. -/
+def nbytesModel (hasDict : Bool) (cached : Option Nat) (asBytes : Except EncErr Bytes) : SizeOut :=
+  if cached = none then
+    bindSize (lenOf asBytes) cached (fun v => storeCached hasDict cached v (fun cached => (.ok cached, cached)))
+  else (.ok cached, cached)
+
+/-- The argument of `cls(data)`: a tuple / list of items, or a dictionary (`exact`: `type(data) is dict`, not a
+subclass) given by its entries in insertion order (keys are text and distinct: a Python dict). -/
+inductive NewArg where
+  | tuple (items : List PyVal)
+  | dict (exact : Bool) (entries : List (String × PyVal))
+  deriving Repr
+
+def isDict : NewArg → Bool
+  | .dict _ _ => true
+  | _ => false
+
+def isExactDict : NewArg → Bool
+  | .dict e _ => e
+  | _ => false
+
+/-- `dict(data)`: the same entries in an exact dictionary (a tuple of pairs is not modelled: `dict()` of a row) -/
+def dictOf : NewArg → NewArg
+  | .dict _ es => .dict true es
+  | a => a
+
+/-- `d.get(k)` / `PyDict_GetItem(d, k)`: the value of the (one) entry with that key -/
+def dictGet (entries : List (String × PyVal)) (k : String) : Option PyVal :=
+  (entries.find? (fun e => e.1 == k)).map (·.2)
+
+/-- compiled.pyx:74-99 `extract_dict_columns(dict data, tuple fields)`: one value per field, in the order of the
+fields, `None` for a field the dictionary lacks; entries that are no field are ignored.  `TypeError` for anything
+but an exact `dict` (the `dict data` argument type) and for `fields = None` (`len(None)`; the class `Row` itself). -/
+def extract_dict_columns (data : NewArg) (fields : Option (List String)) : Except String NewArg :=
+  match data, fields with
+  | .dict true es, some fs => .ok (.tuple (fs.map (fun f => (dictGet es f).getD .none)))
+  | _, _ => .error "TypeError"
+
+/-- `tuple.__new__(cls, data)`: iterates what it is given — the items of a tuple, the KEYS of a dictionary. -/
+def tupleNew : NewArg → List PyVal
+  | .tuple items => items
+  | .dict _ es => es.map (fun e => .str e.1)
+
+/-- a call that may raise inside `__new__` -/
+def bindNew (e : Except String NewArg) (k : NewArg → Except String (List PyVal)) : Except String (List PyVal) :=
+  match e with
+  | .error x => .error x
+  | .ok v => k v
+
+/-- orso/row.py:77-96 `Row.__new__` as it is. -/
+def rowNewModel (fields : Option (List String)) (data : NewArg) : Except String (List PyVal) :=
+  match data with
+  | .tuple items => .ok items
+  | .dict _ es => bindNew (extract_dict_columns (.dict true es) fields) (fun d => .ok (tupleNew d))
+
 end RowGlue
